@@ -1,6 +1,6 @@
 (* Property C08 — the encoded file depends only on PCM and options, not on how it was written. *)
 From FlacWriters Require Import Writers Lists_proofs Params_proofs Audio_proofs Writers_proofs New_proofs Run_proofs
-     Frontend_proofs Bytes_proofs Safety_proofs Cases.
+     Frontend_proofs Bytes_proofs Safety_proofs Cases Cross_proofs.
 Open Scope N_scope.
 
 (* every partition of the input into write calls gives the same finished stream, STREAMINFO
@@ -52,6 +52,32 @@ Theorem C08_frontends_byte_be_block :
     sample_encode_chunk enc_block p ch n e
       (map (fun c => bytes_to_int_le (rev c)) (fst (drain (N.to_nat n) buf))).
 Proof. exact byte_block_as_samples_be. Qed.
+
+(* ... and for whole runs: a FlacByteWriter run (either byte order, any chunking, any byte string — also one ending in
+   the middle of a sample or PCM frame) IS the FlacSampleWriter run over the samples the bytes spell: the same finished
+   stream, STREAMINFO and blocks, or the same error, for the writers the two constructors return for the same
+   parameters and corresponding declared totals *)
+Theorem C08_byte_run_is_sample_run :
+  forall enc_block md5 p en o rate bps ch tb ts wb ws (chunks : list (list N)),
+    options_wf o ->
+    byte_new p en [] o rate bps ch tb = Ok wb -> sample_new p [] o rate bps ch ts = Ok ws ->
+    tb = option_map (N.mul (bytes_per_sample_of bps)) ts ->
+    Forall byte_ok (concat chunks) ->
+    byte_run enc_block md5 p wb chunks =
+    sample_run enc_block md5 p ws [decoded en (N.to_nat (bytes_per_sample_of bps)) (concat chunks)].
+Proof. exact byte_writer_is_sample_writer. Qed.
+
+(* ... and a FlacChannelWriter run (any list of well-formed write arguments) IS the FlacSampleWriter run over the
+   interleaving of everything written *)
+Theorem C08_channel_run_is_sample_run :
+  forall enc_block md5 p o rate bps ch tc ts wc ws (chunks : list (list (list Z))),
+    options_wf o ->
+    channel_new p [] o rate bps ch tc = Ok wc -> sample_new p [] o rate bps ch ts = Ok ws ->
+    ts = option_map (N.mul ch) tc ->
+    Forall (chunk_ok (N.to_nat ch)) chunks ->
+    channel_run enc_block md5 p wc chunks =
+    sample_run enc_block md5 p ws [concat (multizip (cconcat (N.to_nat ch) chunks))].
+Proof. exact channel_writer_is_sample_writer. Qed.
 
 (* a trailing partial PCM frame is dropped: it changes nothing in the result *)
 Theorem C08_partial_dropped_sample :
